@@ -38,6 +38,10 @@ type Field struct {
 	// Context is for user provided data and is only used by the Resolvers,
 	// not this package.
 	Context interface{}
+
+	// badArgs are the arguments removed by sortArgs because the field does
+	// not declare them.
+	badArgs []*ArgValue
 }
 
 // String representation of the instance.
@@ -123,12 +127,22 @@ func (f *Field) sortArgs() (errors []error) {
 				}
 				for _, av := range f.Args {
 					if fd.getArg(av.Arg) == nil {
-						errors = append(errors, valError(av.line, av.col, "%s is not an argument to %s", av.Arg, f.Name))
+						f.badArgs = append(f.badArgs, av)
 					}
 				}
 				f.Args = args
 			}
 		}
+	}
+	return f.badArgErrors()
+}
+
+// badArgErrors returns an error for each supplied argument the field does not
+// declare. The errors are formed on each call since the resolve functions add
+// to the path of the errors they are given.
+func (f *Field) badArgErrors() (errors []error) {
+	for _, av := range f.badArgs {
+		errors = append(errors, valError(av.line, av.col, "%s is not an argument to %s", av.Arg, f.Name))
 	}
 	return
 }
